@@ -84,10 +84,16 @@ def to_csv(val):
     stream = StringIO()
     writer = csv.writer(stream, dialect="excel")
     writer.writerow(unicode_values)
-    # Strip any csv.writer added carriage return line feeds
-    # and double quotes before saving.
-    csv_string = stream.getvalue().strip().strip('"')
-    if len(unicode_values) > 1:
+    # Remove only the line terminator added by csv.writer. The csv quoting
+    # has to stay intact, otherwise from_csv cannot restore the values.
+    csv_string = stream.getvalue()[:-len(writer.dialect.lineterminator)]
+    if len(unicode_values) == 1:
+        single = unicode_values[0]
+        # A single value is stored as is (from_csv returns it unparsed) unless
+        # it would be read as no value or as a bracketed list of values.
+        if single and not (single[0] == "[" and single[-1] == "]"):
+            return single
+    if unicode_values:
         csv_string = "[" + csv_string + "]"
     return csv_string
 
